@@ -58,6 +58,10 @@ type negoScn struct {
 	KSReverse bool `json:"ks_reverse"`
 	// KSList: the parrot's spec as a custom spec whose key_share extension carries exactly these groups, in this order
 	KSList []int `json:"ks_list"`
+	// KX*: layout of the hybrid key exchange the test server performs itself (spec/Negotiation.tla HybridLayout)
+	KXShare  string `json:"kx_share"`
+	KXSecret string `json:"kx_secret"`
+	KXKem    string `json:"kx_kem"`
 	// FPCopy: the client is a custom spec obtained by fingerprinting a hello built from the parrot
 	FPCopy bool `json:"fp_copy"`
 	// PriorID: a connection with this other ClientHelloID is made first on the same *Config object
@@ -231,6 +235,14 @@ func runNego(s negoScn, rawScn json.RawMessage, pk *hlib.PKI, certs map[string]t
 	}
 	if s.Group != 0 {
 		scfg.CurvePreferences = []tls.CurveID{tls.CurveID(s.Group)}
+	}
+	if s.KXSecret != "" {
+		// a hybrid group the in-tree server lacks: its group selection is overridden and the key exchange is done
+		// by the harness following the layout of the scenario (kx.go)
+		scfg.CurvePreferences = nil
+		ov.ForceGroup = tls.CurveID(s.Group)
+		useOv = true
+		installKX(scfg, kxLayout{Share: s.KXShare, Secret: s.KXSecret, Kem: s.KXKem})
 	}
 	if s.ForceGroup != 0 {
 		ov.ForceGroup = tls.CurveID(s.ForceGroup)
